@@ -48,7 +48,8 @@ type World struct {
 	// CanonI: inline simple pure helpers while rendering
 	ledgerKindDepth int
 	roMemo          map[*ssa.Function]bool
-	inlineDeep bool
+	inlineDeep      bool
+	inSinkOnPaths   bool
 	inlineHelpers   bool
 	shallowResolve  bool // resolveValue: do not replace helper results by callee-internal values
 	resolveFallible bool // canonResolved: also look through helpers that return an error
